@@ -236,8 +236,9 @@ def lower_inverse(rs):
 
 
 # ---- lowering to z3 ----------------------------------------------------------------------------
-def to_z3(x, charsets=None):
-    """Lower to a z3 regex; every character set used is appended to `charsets` (high-plane reduction)."""
+def to_z3(x, charsets=None, red=None):
+    """Lower to a z3 regex; every character set used is appended to `charsets` (alphabet reduction).
+    With a Reducer `red`, character sets are replaced by the representatives they contain."""
     op = x.op
     if op == 'eps':
         return strlang.re_eps()
@@ -248,20 +249,22 @@ def to_z3(x, charsets=None):
     if op == 'set':
         if charsets is not None:
             charsets.append(list(x.a[0]))
+        if red is not None:
+            return red.z3set(list(x.a[0]))
         return strlang.z3_charset(list(x.a[0]))
     if op == 'cat':
-        return z3.Concat(*[to_z3(c, charsets) for c in x.a[0]])
+        return z3.Concat(*[to_z3(c, charsets, red) for c in x.a[0]])
     if op == 'alt':
-        return z3.Union(*[to_z3(c, charsets) for c in x.a[0]])
+        return z3.Union(*[to_z3(c, charsets, red) for c in x.a[0]])
     if op == 'and':
-        return z3.Intersect(*[to_z3(c, charsets) for c in x.a[0]])
+        return z3.Intersect(*[to_z3(c, charsets, red) for c in x.a[0]])
     if op == 'not':
-        return z3.Complement(to_z3(x.a[0], charsets))
+        return z3.Complement(to_z3(x.a[0], charsets, red))
     if op == 'star':
-        return z3.Star(to_z3(x.a[0], charsets))
+        return z3.Star(to_z3(x.a[0], charsets, red))
     if op == 'loop':
         body, lo, hi = x.a
-        b = to_z3(body, charsets)
+        b = to_z3(body, charsets, red)
         if hi is None:
             return z3.Concat(z3.Loop(b, lo, lo), z3.Star(b)) if lo else z3.Star(b)
         return z3.Loop(b, lo, hi)
@@ -274,6 +277,89 @@ def sval(s):
     escaped."""
     enc = ''.join(ch if 32 <= ord(ch) < 127 and ch != '\\' else '\\u{%x}' % ord(ch) for ch in s)
     return z3.SeqRef(z3.Z3_mk_string(z3.main_ctx().ref(), enc), z3.main_ctx())
+
+
+class Reducer:
+    """Alphabet compression.  All languages of a check are built from finitely many character sets; code points
+    with the same membership signature over those sets are interchangeable, so each signature class is replaced
+    by one representative (its smallest member, which must lie in z3's alphabet).  For a language L built from
+    the sets, and L_red built the same way from the reduced sets:  s in L  <=>  h(s) in L_red  (h maps every
+    character to its representative), hence  L empty  <=>  L_red & REPS* empty.  z3 then works with unions of a
+    few dozen single characters instead of the ~770 ranges of \\w.  Witnesses are real strings."""
+
+    def __init__(self, charsets):
+        sets = [strlang.rs_norm(c) for c in charsets]
+        uniq = []
+        for c in sets:
+            if c not in uniq:
+                uniq.append(c)
+        sets = uniq
+        cuts = {0, PYMAX + 1, 0xD800, 0xE000}
+        for rs in sets:
+            for lo, hi in rs:
+                cuts.add(lo)
+                cuts.add(hi + 1)
+        cuts = sorted(cuts)
+        import bisect
+        starts = [[lo for lo, _ in rs] for rs in sets]
+
+        def member(k, cp):
+            i = bisect.bisect_right(starts[k], cp) - 1
+            return i >= 0 and sets[k][i][1] >= cp
+
+        self.classes = {}      # signature -> list of (lo, hi)
+        for a, b in zip(cuts, cuts[1:]):
+            if 0xD800 <= a <= 0xDFFF:
+                continue
+            sig = tuple(member(k, a) for k in range(len(sets)))
+            self.classes.setdefault(sig, []).append((a, b - 1))
+        self.rep_of_sig = {}
+        for sig, ivs in self.classes.items():
+            r = min(lo for lo, _ in ivs)
+            if r > strlang.ZMAX:
+                raise HarnessError(f'signature class starting at U+{r:X} has no member in z3\'s alphabet')
+            self.rep_of_sig[sig] = r
+        self.reps = sorted(self.rep_of_sig.values())
+        self._ivs = sorted((lo, hi, self.rep_of_sig[sig]) for sig, ivs in self.classes.items() for lo, hi in ivs)
+        self._los = [x[0] for x in self._ivs]
+        self._bisect = bisect
+
+    def rep(self, cp):
+        i = self._bisect.bisect_right(self._los, cp) - 1
+        lo, hi, r = self._ivs[i]
+        if not lo <= cp <= hi:
+            raise HarnessError(f'code point U+{cp:X} outside the alphabet (surrogate?)')
+        return r
+
+    def h(self, s):
+        return ''.join(chr(self.rep(ord(c))) for c in s)
+
+    def reduce(self, rs):
+        rs = strlang.rs_norm(rs)
+        return [(r, r) for r in self.reps if strlang.rs_contains(rs, r)]
+
+    def z3set(self, rs):
+        return strlang.z3_charset(self.reduce(rs))
+
+    def repstar(self):
+        return z3.Star(strlang.z3_charset([(r, r) for r in self.reps]))
+
+    def in_lang(self, zre_red, s):
+        return in_lang(zre_red, self.h(s))
+
+
+class ReducedReTranslator(strlang.ReTranslator):
+    """strlang.ReTranslator with character sets replaced by their representatives (second pass; the first pass
+    with the plain translator collects the sets)."""
+
+    def __init__(self, red):
+        super().__init__()
+        self.red = red
+
+    def _set(self, rs):
+        rs = strlang.rs_norm(rs)
+        self.charsets.append(rs)
+        return self.red.z3set(rs)
 
 
 def in_lang(zre, s):
